@@ -27,10 +27,16 @@ CPY = os.path.join(C.VERIF, 'cpy')
 BCPY = os.path.join(C.BUILD, 'cpy')
 COQ_DIR = os.path.join(CPY, 'coq')
 COQ_LOGICAL = '-R /verif/coq AwkV -R . AwkPy'
-THEOREMS = ['unflatten_flatten', 'flatten_none_app', 'reduce_none_is_reduce_of_flatten',
-            'cartesian_is_product', 'cartesian_length', 'concat_axis0_app', 'concat_axis1_zipapp',
-            'is_none_exact', 'mask_exact', 'fill_none_exact', 'firsts_singletons',
-            'unzip_zip', 'with_field_get_same', 'with_field_get_other', 'with_field_preserves_shape']
+THEOREMS_BY_PROP = {
+    'C03': ['reduce_none_is_reduce_of_flatten'],
+    'C05': ['unflatten_flatten', 'unflatten_flatten_plain', 'flatten_none_app'],
+    'C07': ['cartesian_is_product', 'cartesian_length', 'cartesian_pair_index', 'cartesian_nested_pair'],
+    'C08': ['concat_axis0_app', 'concat_axis1_zipapp'],
+    'C09': ['is_none_exact', 'is_none_exact_axis1', 'mask_exact', 'fill_none_exact', 'fill_none_exact_axis1',
+            'firsts_singletons'],
+    'C10': ['unzip_zip_partial', 'with_field_get_same', 'with_field_get_other', 'with_field_preserves_shape'],
+}
+THEOREMS = [t for p_ in sorted(THEOREMS_BY_PROP) for t in THEOREMS_BY_PROP[p_]]
 RULE = ('value-first random layouts (every list/option encoding) wrapped in ak.Array x the Python-level function with '
         'arguments covering positive/negative/None axes, targets, nested/depth_limit options and incompatible inputs; '
         'families of arrays sharing an outer list structure for the n-ary functions; non-trivial = the call succeeded on '
@@ -52,6 +58,37 @@ def build():
     r = C.sh('make -s -C %s/ocaml VERIF=%s' % (CPY, C.VERIF))
     if r.returncode != 0:
         raise C.BuildError('pyrun build failed:\n' + r.stdout[-3000:])
+
+
+def rocq_obligations(prop=None):
+    """audit /verif/cpy/coq, compile Props_Py.v, parse every Print Assumptions.
+    Returns (n_obligations, n_discharged, problems, axioms) for the theorems of `prop` (all when None), in the
+    shape of check.rocq_obligations."""
+    import check as K
+    theorems = THEOREMS if prop is None else THEOREMS_BY_PROP[prop]
+    probs = K.audit_dir(COQ_DIR)
+    r = C.sh('cd %s && timeout 900 coqc %s Props_Py.v' % (COQ_DIR, COQ_LOGICAL))
+    if r.returncode != 0:
+        return len(theorems), 0, probs + ['Props_Py.v no longer checks: ' + r.stdout[-600:]], {}
+    src = K.strip_comments(open(os.path.join(COQ_DIR, 'Props_Py.v')).read())
+    declared = re.findall(r'Theorem\s+(\w+)', src)
+    printed = re.findall(r'Print Assumptions\s+(\w+)', src)
+    blocks = [b for b in re.split(r'(?=Closed under the global context|Axioms:)', r.stdout)
+              if b.startswith('Closed') or b.startswith('Axioms:')]
+    axioms = {}
+    if len(blocks) != len(printed):
+        probs.append('could not match Print Assumptions output (%d blocks, %d commands)' % (len(blocks), len(printed)))
+    for name, b in zip(printed, blocks):
+        axioms[name] = [] if b.startswith('Closed') else re.findall(r'^(\S+)\s*:', b[len('Axioms:'):], re.M)
+    for t in theorems:
+        if t not in declared:
+            probs.append('theorem %s not stated in Props_Py.v' % t)
+        elif t not in axioms:
+            probs.append('no Print Assumptions for %s' % t)
+        elif axioms[t]:
+            probs.append('theorem %s depends on axioms %s' % (t, ', '.join(axioms[t])))
+    ok = sum(1 for t in theorems if t in declared and axioms.get(t) == [])
+    return len(theorems), ok, probs, {t: axioms.get(t) for t in theorems}
 
 
 LINE_ID = re.compile(r'^\((\S+) ')
@@ -268,6 +305,8 @@ def pack_hazard(layout, levels):
         elif h == 'unm':
             node = node[1]
         elif h in ('lo', 'la', 'reg'):
+            if h == 'reg' and (G.child_len(node[3]) or 0) > node[1] * node[2]:
+                return True          # only a non-empty RegularArray is trimmed
             if levels <= 0:
                 return False
             levels -= 1
@@ -366,6 +405,18 @@ def negrec0(axis, *types):
     """negative axis that means axis 0 of an array with records: Content::axis_wrap_if_negative compares
     minmax_depth with purelist_depth (1 for a record) and refuses"""
     return bool(axis is not None and axis < 0 and any(G.has_kind(t, 'rec') and res_axis(t, axis) == 0 for t in types))
+
+
+def rec_deep(t):
+    """a record type with a list-typed field (its minmax_depth differs from its purelist_depth)"""
+    k = t[0]
+    if k == 'rec':
+        return any(G.list_depth(ft)[1] >= 2 or rec_deep(ft) for _, ft in t[1])
+    if k in ('list', 'opt'):
+        return rec_deep(t[1])
+    if k == 'union':
+        return any(rec_deep(a) for a in t[1])
+    return False
 
 
 def negrec(axis, *types):
@@ -915,15 +966,14 @@ def signature(prop, c, impl, verdict):
     if c.op in ('concatenate', 'fill_none') and any(has_node(l, ('unm',)) for l in lays) \
             and verdict.startswith('viol value') and not impl.startswith('err'):
         return 'unmasked-fillna-recurses'
-    if any(has_reg0(l) for l in lays) and c.op in ('concatenate', 'cartesian', 'argcartesian', 'zip', 'unzip_zip', 'mask',
-                                                   'with_field', 'get_with_field'):
+    if any(has_reg0(l) for l in lays):
         if impl.startswith('err') and 'RegularArray of size' in msg:
             return 'regular-size1-to-size0'
         if impl.startswith('ok') or ('cannot broadcast' in msg and ' of length ' in msg):
             return 'regular-size0-length-lost'
     types = c.meta.get('types') or []
     ax = tg.get('axis')
-    if isinstance(ax, int) and ax < 0 and types and negrec0(ax, *types):
+    if isinstance(ax, int) and ax < 0 and types and negrec0(ax, *types) and impl.startswith('err'):
         return 'negaxis-zero-through-record'
     rax = res_axis(types[0], ax) if (types and isinstance(ax, int)) else ax
     if tg.get('rec_untrimmed') and (f.endswith(':none') or tg.get('axis') == 'none'):
@@ -939,7 +989,14 @@ def signature(prop, c, impl, verdict):
                 return 'argminmax-axis-none-empty-raises'
             return None
         import props.c03 as c03
-        return c03.signature(c, impl, verdict)
+        sg = c03.signature(c, impl, verdict)
+        if sg is None and tg.get('reducer') in ('argmin', 'argmax') and types and G.has_kind(types[0], 'opt'):
+            # same defect with option-type LEAVES: rows whose element is missing are not counted either
+            mn, mx = G.list_depth(types[0])
+            a = tg.get('axis')
+            if isinstance(a, int) and ((a < 0 and -a >= 2) or (a >= 0 and mx - a >= 2)):
+                return 'argminmax-nonlocal-positions'
+        return sg
     if prop == 'C05':
         if f == 'num' and rax == 0 and lays and top_node(lays[0]) == 'rec':
             return 'num-axis0-recordarray-returns-record'
@@ -952,6 +1009,11 @@ def signature(prop, c, impl, verdict):
     if prop == 'C09':
         if f == 'is_none' and tg.get('beyond'):
             return 'is-none-axis-beyond-depth'
+        if f == 'pad_none' and tg.get('clip') and rax == 0 and lays and top_node(lays[0]) == 'unm':
+            return 'unmasked-rpad-and-clip-axis0-no-clip'
+        if f == 'fill_none' and isinstance(tg.get('axis'), str) and tg['axis'].startswith('-') and types \
+                and rec_deep(types[0]):
+            return 'negaxis-record-not-resolved'
     if prop == 'C07':
         closure = verdict.startswith('viol closure')
         if f in ('cartesian', 'combinations') and rax == 0 and tg.get('top_optionlike') and closure:
@@ -970,6 +1032,13 @@ def signature(prop, c, impl, verdict):
             return 'with-field-sole-field-drops-structure'
     if any(has_reg0(l) for l in lays) and impl.startswith('err') and verdict.startswith('viol value'):
         return 'regular-size0-refused'
+    if any(has_node(l, ('reg',)) for l in lays) and verdict.startswith('viol value'):
+        # no element survives (zero-length arrays, or every row masked out): all_same_offsets compares
+        # arange(0, len(content), size) of a RegularArray with the offsets of zero lists, takes the "same offsets"
+        # branch and hands the RegularArray itself to the next level
+        if all((G.child_len(l) or 0) == 0 for l in lays) or re.search(r'\(impl \(t?l?( none| \(l\))*\)\)', verdict) \
+                or re.search(r'\(spec \(l( none)*\)\)', verdict):
+            return 'broadcast-all-same-offsets-regular-zero-length'
     if any(has_node(l, ('reg',)) for l in lays) and impl.startswith('err') and 'cannot broadcast' in msg \
             and ' of length ' in msg and verdict.startswith('viol value') and '(spec err)' not in verdict:
         return 'regular-level-no-left-broadcast'
